@@ -607,6 +607,8 @@ def owners(clause: str, kind: str) -> set:
                 own |= {'C09'} if kind != 'abort' else set()
         if c.startswith('offered-'):
             own |= {'C06'}
+        if c.startswith('held-hand'):
+            own |= {'C05'}
         if c.startswith('abort-'):
             own |= {'C13'}
         if c.startswith('admission-'):
@@ -643,6 +645,14 @@ def run_into(chk: Check, pid: str, tier: str) -> None:
         # not passed on to the other seats (whose replicas would take it)
         jobs = [j for j in abort_jobs(r, 60 if quick else 1500, 'a')
                 if j[1].get('fault', {}).get('phase') == 'play'][:16 if quick else 400]
+        # ... and the hand each client believes it holds, at every decision of
+        # sessions with passed-out boards in every position
+        more = normal_jobs(r, 12 if quick else 300, 'o', max_boards=4)
+        for (_, cfg_, _, _) in more:
+            cfg_['offers'] = True
+            cfg_['vary'] = False
+            cfg_.pop('second', None)
+        jobs += more
     elif pid == 'C06':
         # the set the bundled client's replica offers to its playing system, at
         # every decision of sessions with passed-out boards in every position
